@@ -175,7 +175,7 @@ def paging(vm, lo, hi):
     elif who == 1 or n == 0:
         requester = make_kademlia_peer(b'\x77' * 48, '7.7.7.7', udp_port=4444, tcp_port=3999)      # not an announcer
     else:
-        requester = peers[vm.pick('requester_is', n)]                                                # one of the announcers
+        requester = peers[(0, n // 2, n - 1)[vm.pick('requester_is', 3)]]                            # the first / middle / last announcer
     server = Server(StubProtocol(store))
     log = []
     remote = make_kademlia_peer(server.protocol.node_id, '9.9.9.9', udp_port=4444)
@@ -216,12 +216,12 @@ def jobs(tier):
                         loop_bound=200, max_depth=60, cost=30 ** n_events // 100,
                         bounds=dict(announcers=n_peers, events=n_events, event_kinds='announce / clean-up / mark good-bad-unknown',
                                     clock='symbolic non-decreasing, steps up to 3 days')))
-    hi = 40 if tier == 'quick' else 120
-    for lo in range(0, hi + 1, 10):
-        out.append(dict(name=f'paging-{lo}-{min(hi, lo + 9)}', family='paging', fn='paging', args=(lo, min(hi, lo + 9)), loop_bound=400,
+    ranges = [(0, 9), (10, 19), (20, 27), (86, 90), (96, 100)] if tier == 'quick' else [(lo, lo + 4) for lo in range(0, 130, 5)]
+    for lo, hi in ranges:
+        out.append(dict(name=f'paging-{lo}-{hi}', family='paging', fn='paging', args=(lo, hi), loop_bound=400,
                         max_depth=60, cost=200 + 20 * lo,
-                        bounds=dict(announcers=f'{lo}..{min(hi, lo + 9)}', K=constants.K, requester='no tcp port / stranger / any announcer',
-                                    server_holds_blob='symbolic')))
+                        bounds=dict(announcers=f'{lo}..{hi}', K=constants.K,
+                                    requester='no tcp port / stranger / first, middle or last announcer', server_holds_blob='symbolic')))
     return out
 
 
@@ -249,7 +249,20 @@ def _page_slice(node):
     return False
 
 
+def _old_page_count(node):
+    """Canary: the page count that loses the last page from 89 holders on."""
+    import ast
+    for n in ast.walk(node):
+        if isinstance(n, ast.Assign) and isinstance(n.targets[0], ast.Subscript) and isinstance(n.value, ast.BinOp) \
+                and isinstance(n.value.op, ast.FloorDiv):
+            n.value = ast.parse('len(peers) // (constants.K + 1) + 1').body[0].value
+            return True
+    return False
+
+
 CANARIES = [
+    dict(name='page-count-undercounts', target='lbry.dht.protocol.protocol:KademliaRPC.find_value', mutate=_old_page_count,
+         job=dict(family='paging', fn='paging', args=(88, 90), loop_bound=400, max_depth=60)),
     dict(name='expires-one-second-late', target='lbry.dht.protocol.data_store:DictDataStore.filter_expired_peers', mutate=_expiry_le,
          job=dict(family='expiry', fn='expiry', args=(1, 3), loop_bound=200, max_depth=60)),
     dict(name='page-one-short', target='lbry.dht.protocol.protocol:KademliaRPC.find_value', mutate=_page_slice,
